@@ -1,6 +1,6 @@
 #!/bin/bash
 # Re-run every seeded change against the check of the property it breaks (scratch worktree /tmp/mw, VERIF_REPO).
-# usage: tools/seed_regress.sh [name...]      expected: rc=1 for every line (C02-b is judged by C01 and C08)
+# usage: tools/seed_regress.sh [name...]      expected: rc=1 for every line (C02-b is judged by C01 and C08, C06-e by C17)
 W=${VERIF_SCRATCH:-/tmp/mw}
 [ -d $W ] || git -C /repo worktree add -q --detach $W HEAD
 names="$@"; [ -z "$names" ] && names=$(ls /verif/seeded | grep -v -e INDEX -e benign)
@@ -8,13 +8,13 @@ fail=0
 for n in $names; do
   d=/verif/seeded/$n
   prop=$(python3 -c "import json;print(json.load(open('$d/meta.json'))['breaks_property'])")
-  checks=$prop; [ "$n" = "C02-b" ] && checks="C01 C08"
+  checks=$prop; [ "$n" = "C02-b" ] && checks="C01 C08"; [ "$n" = "C06-e" ] && checks="C17"
   (cd $W && git checkout -q -- . && git clean -fdq && git checkout -q --detach $(git -C /repo rev-parse HEAD) && git apply $d/patch.diff) || { echo "$n: patch does not apply"; fail=1; continue; }
   for c in $checks; do
     (cd /verif && VERIF_REPO=$W python3 check.py $c --tier quick > /tmp/seedreg_$n_$c.log 2>&1); rc=$?
     keys=$(grep -E "^  key=" /tmp/seedreg_$n_$c.log | sed 's/^  key=//' | cut -d' ' -f1 | head -2 | tr '\n' ' ')
     echo "$n $c rc=$rc $keys"
-    want=1; [ "$n" = "C06-d" ] && want=0      # C06-d is outside the stated domain (see its meta.json): silence expected
+    want=1; [ "$n" = "C06-d" ] && want=0     # C06-d is outside the stated domain (see its meta.json): silence expected
     [ $rc -ne $want ] && { fail=1; echo "  UNEXPECTED: $n $c rc=$rc (expected $want)"; }
   done
 done
